@@ -116,6 +116,14 @@ def uterm(v):
         return f(*[uterm(x) for x in v])
     if isinstance(v, dict) and not v:
         return z3.Const("py:emptydict", USORT)
+    if isinstance(v, Arr):
+        # identity of an array value as an abstract object (two reads of the same unmodified array give the same term)
+        t = v.ghost.get("_uterm")
+        if t is None or v.ghost.get("_uterm_of") is not v._term:
+            t = z3.Const(fresh_name("arrobj"), USORT)
+            v.ghost["_uterm"] = t
+            v.ghost["_uterm_of"] = v._term
+        return t
     raise Unsupported(f"object term of {type(v).__name__}")
 
 
@@ -283,3 +291,101 @@ def sp_item(ex, args, kwargs, node):
 @spec("is_tuple")
 def sp_is_tuple(ex, args, kwargs, node):
     return isinstance(args[0], tuple)
+
+
+# =============================================================================================
+# UxDataArray record (C06 dispatch, C10 grid re-attachment)
+# =============================================================================================
+class SuperProxy:
+    def __init__(self, obj):
+        self.obj = obj
+
+
+V.SuperProxy = SuperProxy
+
+
+@factory("UxDataArray")
+def make_uxda(ex, name, env, dims=None, **kw):
+    """dims: tuple of dimension names (concrete per path); values: a symbolic object; uxgrid: a Grid record"""
+    o = Obj("UxDataArray")
+    g = make_grid2(ex, name + ".uxgrid", env)
+    o.fields["_uxgrid"] = g
+    o.fields["dims"] = tuple(dims) if dims is not None else Opaque(name=name + ".dims")
+    if dims is not None:
+        # element counts of the grid and lengths of the other dimensions are independent symbols (n_node == n_face is possible)
+        sizes = {}
+        for d in ("n_face", "n_node", "n_edge"):
+            sizes[d] = z3.Int(fresh_name(d))
+            ex.assume(sizes[d] >= 1)
+            g.fields[d] = sizes[d]
+        shape = []
+        for d in dims:
+            if d not in sizes:
+                sizes[d] = z3.Int(fresh_name("len_" + d))
+                ex.assume(sizes[d] >= 1)
+            shape.append(sizes[d])
+        o.fields["values"] = Arr.fresh(name + ".values", shape, "real")
+        o.fields["sizes"] = sizes
+    else:
+        o.fields["values"] = Opaque(name=name + ".values")
+    o.fields["name"] = Opaque(name=name + ".name")
+    return o
+
+
+@model("class:UxDataArray", "uxarray.core.dataarray.UxDataArray")
+def ctor_uxda(ex, args, kwargs, node):
+    trusted(ex, "UxDataArray(data, uxgrid=, dims=, name=): records its arguments (xarray.DataArray constructor assumed)")
+    o = Obj("UxDataArray")
+    o.fields["_uxgrid"] = kwargs.get("uxgrid")
+    data = args[0] if args else kwargs.get("data")
+    if isinstance(data, Obj) and data.cls in ("DataArray", "UxDataArray"):
+        # wrapping an existing array keeps its data / dims / name
+        o.fields["values"] = data.fields.get("values")
+        o.fields["dims"] = kwargs.get("dims", data.fields.get("dims"))
+        o.fields["name"] = kwargs.get("name", data.fields.get("name"))
+    else:
+        o.fields["values"] = data
+        o.fields["dims"] = kwargs.get("dims")
+        o.fields["name"] = kwargs.get("name")
+    return o
+
+
+def _super_copy(ex, obj, args, kwargs, node, env, fr):
+    """xarray.DataArray._copy: a new array object of the same class (assumed); which grid it carries is NOT assumed"""
+    trusted(ex, "xarray.DataArray._copy returns a new object of type(self) with the same dims / name (assumed)")
+    s = obj.obj
+    o = Obj(s.cls)
+    o.fields["_uxgrid"] = opt_opaque("copied._uxgrid")
+    for f in ("dims", "name"):
+        o.fields[f] = s.fields.get(f)
+    o.fields["values"] = Opaque(name="copied.values")
+    return o
+
+
+def _super_replace(ex, obj, args, kwargs, node, env, fr):
+    """xarray.DataArray._replace: type(self)(variable, ...) - for a subclass whose constructor may or may not be honoured, the
+    result is either a UxDataArray without grid or a plain DataArray (both cases explored)"""
+    trusted(ex, "xarray.DataArray._replace returns a UxDataArray (grid not set) or a plain DataArray (both explored)")
+    s = obj.obj
+    if ex.nondet(2) == 0:
+        o = Obj("UxDataArray")
+        o.fields["_uxgrid"] = None
+    else:
+        o = Obj("DataArray")
+    for f in ("dims", "name"):
+        o.fields[f] = Opaque(name="replaced." + f)
+    o.fields["values"] = Opaque(name="replaced.values")
+    return o
+
+
+METHODS[("SuperProxy", "call:_copy")] = _super_copy
+METHODS[("SuperProxy", "call:_replace")] = _super_replace
+
+
+@model("numpy.einsum")
+def np_einsum(ex, args, kwargs, node):
+    sub = args[0]
+    if sub != "i,...i" or len(args) != 3:
+        raise Unsupported("einsum other than 'i,...i'")
+    trusted(ex, "numpy.einsum('i,...i', w, v) = sum over the LAST axis of v weighted by w")
+    return as_opt(_uf("wsum_last_axis", 2)(uterm(args[1]), uterm(args[2])), "einsum")
